@@ -45,6 +45,16 @@ CHECKS = {
         technique="TLA+ transcription of the sparse backward liveness analysis + solver loop with an arbitrary-choice worklist, model-checked from every small program; real DataFlowSolver run under randomized schedules and load orders, final lattices judged by TLC against the declarative least fixpoint",
         text="TLC checks on every program with <=2 (thorough: 3) ops, every seed set, both load modes and EVERY drain order that the analysis ends in the least fixpoint and never overshoots it. The real solver is run on that program space and on generated programs with 3-9 ops (multi-result ops, read/write/unknown effects) with its worklist replaced by a random-pop deque, in three analysis load orders; TLC compares every final lattice with the declarative fixpoint and schedules must agree.",
         note="Trusted: DataflowDefs.tla's fixpoint is the property's definition; boundary liveness is seeded through the lattice API (no public-function caller exists yet)."),
+    "C13": dict(
+        category="exploration", design_ref="DESIGN.md §3.6, §4 C13",
+        technique="TLA+ declarative liveness over program graphs (DCE.tla) evaluated by TLC as reference for what the real dce pass / trivial-dead removal leave behind",
+        text="Generated program graphs (pure, read-only, writing, unknown-effect, unregistered, terminator and symbol ops incl. harness-defined PURE terminators and PURE symbols so that each clause of would_be_trivially_dead is isolated; dead chains and cross-block dead cycles; unreachable blocks; nested regions; unregistered terminators) are built as IR; the dce pass must keep exactly the model's Kept ops and reachable blocks, dce() and GreedyRewritePatternApplier(dce_enabled) may only remove what the model calls trivially dead.",
+        note="Trusted: DCE.tla; the removable flag assigned per op kind; region-holding ops are never removable in generated graphs. The result/effect-preservation half is covered by the translation-validation route of C14 (dce is one of its passes)."),
+    "C29": dict(
+        category="exploration", design_ref="DESIGN.md §3.10, §4 C29",
+        technique="TLA+ definition of symbol resolution (SymbolTable.tla) evaluated by TLC as reference; exhaustive small module trees x references x `from` ops through every lookup API",
+        text="Every verified module tree with <=4 (thorough: 5) nodes over named/unnamed symbol tables, non-table symbols and plain region ops with public/private visibility, every reference of length <=3 and every `from` operation is resolved through SymbolTable.lookup_nearest_symbol_from / lookup_symbol_in, the cached SymbolTableCollection (cold and warm) and traits.SymbolTable.lookup_symbol; TLC computes the designated symbol.",
+        note="Trusted: SymbolTable.tla states the nesting rules. Exhaustive for the bound."),
 }
 
 NOT_APPLICABLE = {
